@@ -378,11 +378,10 @@ def evaluate(graph):
 def _pool_eval(graph):
     try:
         v = evaluate(graph)
-        if v["verdict"] in ("mismatch", "error"):
-            v2 = evaluate(graph)  # a finding must reproduce
-            if v2["verdict"] != v["verdict"] or v2.get("error") != v.get("error") or v2.get("got") != v.get("got"):
-                return graph, {"verdict": "flaky", "first": {k: v.get(k) for k in ("verdict", "error", "msg")}, "second": v2["verdict"]}
-            klass, node, feats, sym = classify(graph, v)
+        if v["verdict"] in ("mismatch", "error") and v.get("kind") != "accepted-invalid":
+            klass, node, feats, sym = classify(graph, v)  # re-runs the failing node's ancestor slice: a finding must reproduce
+            if sym == "not-reproduced":
+                return graph, {"verdict": "flaky", "first": {k: v.get(k) for k in ("verdict", "error", "msg")}, "second": "agree"}
             v.update({"class": klass, "failing_node": node, "features": feats, "symptom": sym})
         return graph, v
     except Exception as e:  # noqa  harness failure, reported as checker error by the parent
@@ -507,23 +506,37 @@ def slice_to(graph, name):
 
 
 def locate(graph, verdict):
-    """failing node: first mismatching node, or (errors) last node of the shortest failing prefix.
-    Returns (node name, verdict of the sliced graph)"""
+    """failing node and the verdict of its ancestor sub graph (which doubles as the reproduction run).
+    mismatch: the first mismatching node.  error: the first node whose ancestor slice fails, trying
+    nodes that show one of the structural features first.  Returns (node, slice verdict) or
+    (None, verdict of a full re-run) when no ancestor slice fails."""
     names = [n["name"] for n in graph["nodes"]]
     if verdict["verdict"] == "mismatch" and verdict.get("kind") == "output":
-        first = [n for n in names if n in verdict["nodes"]][0]
-        sub = slice_to(graph, first)
-        return first, (evaluate(sub) if len(sub["nodes"]) < len(names) else verdict)
-    for j in range(1, len(names) + 1):
-        pre = {"inputs": graph["inputs"], "nodes": graph["nodes"][:j]}
-        pre["inputs"] = {k: v for k, v in graph["inputs"].items() if any(s == ["in", k] for n in pre["nodes"] for s in n["args"].values())}
-        v = evaluate(pre) if j < len(names) else verdict
+        cands = [[n for n in names if n in verdict["nodes"]][0]]
+    else:
+        withf = [n for n in names if _safe_features(graph, n)]
+        nodes = {m["name"]: m for m in graph["nodes"]}
+        rest = [n for n in names if n not in withf]
+        cands = withf + [n for n in rest if _ups(nodes[n])] + [n for n in rest if not _ups(nodes[n])]
+    for n in cands:
+        sub = slice_to(graph, n)
+        v = evaluate(sub)
         if v["verdict"] in ("mismatch", "error"):
-            if v["verdict"] == "mismatch" and v.get("kind") == "output":
-                return locate(pre, v)
-            sub = slice_to(pre, names[j - 1])
-            return names[j - 1], (evaluate(sub) if len(sub["nodes"]) < j else v)
-    return names[-1], verdict
+            if v["verdict"] == "mismatch" and v.get("kind") == "output" and v["nodes"][0] != n:
+                n = v["nodes"][0]  # an ancestor already differs
+                sub = slice_to(graph, n)
+                v = evaluate(sub)
+                if v["verdict"] not in ("mismatch", "error"):
+                    continue
+            return n, v
+    return None, evaluate(graph)
+
+
+def _safe_features(graph, n):
+    try:
+        return node_features(slice_to(graph, n), n)
+    except REF.Rejected:
+        return {}
 
 
 def symptom(v):
@@ -543,11 +556,13 @@ def symptom(v):
 
 def classify(graph, verdict):
     """(class or None, failing node, features, symptom).  The class is a STRUCTURAL predicate on the
-    failing node of the minimal failing sub graph; it is None (-> VIOLATION) when the failure does not
-    reproduce on the sliced graph or shows none of the known structures."""
+    failing node of the minimal failing sub graph; None (-> VIOLATION) when the failure shows none of
+    the known structures or only appears on the whole graph; symptom 'not-reproduced' = flaky."""
     node, v2 = locate(graph, verdict)
-    if v2["verdict"] not in ("mismatch", "error"):
-        return None, node, {}, "not-reproduced-on-slice"
+    if node is None:
+        if v2["verdict"] not in ("mismatch", "error"):
+            return None, None, {}, "not-reproduced"
+        return None, None, {}, "only-on-whole-graph:" + symptom(v2)
     sub = slice_to(graph, node)
     feats = node_features(sub, node)
     sym = symptom(v2)
@@ -631,10 +646,15 @@ def shapes():
     return out
 
 
-def shape_graphs(maxlen):
+def shape_graphs(maxlen, all_vectors=True):
+    """all_vectors: every length vector in 1..maxlen; else only the uniform and the alternating ones"""
     for label, nodes in shapes():
         used = sorted({s[1] for n in nodes for s in n["args"].values() if s[0] == "in"})
-        for lens in itertools.product(range(1, maxlen + 1), repeat=len(used)):
+        vecs = list(itertools.product(range(1, maxlen + 1), repeat=len(used)))
+        if not all_vectors:
+            keep = {tuple([2] * len(used)), tuple([1] * len(used)), tuple([1, 2, 1][: len(used)]), tuple([2, 1, 2][: len(used)])}
+            vecs = [v for v in vecs if v in keep]
+        for lens in vecs:
             yield label, {"inputs": {l: LVALS[l][:n] for l, n in zip(used, lens)}, "nodes": [dict(n) for n in nodes]}
 
 
@@ -659,7 +679,7 @@ def _run_domain(ctx, dom, graphs, ex, budget_s, stats):
     from vf.core import CheckerError
 
     done = 0
-    CH = 48
+    CH = 24
     for i in range(0, len(graphs), CH):
         if time.time() - ctx.t0 > budget_s:
             break
@@ -669,6 +689,10 @@ def _run_domain(ctx, dom, graphs, ex, budget_s, stats):
             if v["verdict"] == "harness-crash":
                 raise CheckerError(f"harness crashed on {short(g)}: {v['error']}\n{v.get('tb', '')}")
             stats[v["verdict"]] = stats.get(v["verdict"], 0) + 1
+            if v["verdict"] == "flaky":
+                # a failure that did not reproduce on an immediate re-run is not a finding (and not counted)
+                ctx.note(f"not reproducible, not counted: {short(g)} first={v['first']} second={v['second']}")
+                continue
             if v["verdict"] == "agree" and v.get("reading"):
                 stats["agree-under-alternative-fan-in-order"] = stats.get("agree-under-alternative-fan-in-order", 0) + 1
             try:
@@ -719,19 +743,39 @@ def run(ctx):
     rng = random.Random(ctx.seed)
     maxlen = ctx.pick(2, 3)
     stats = {}
-    budget = ctx.pick(58, 760)
+    budget = ctx.pick(55, 760)
     with cf.ProcessPoolExecutor(max_workers=12, mp_context=mp.get_context("spawn"), initializer=_pool_init) as ex:
         # 1. named shapes, every length vector
-        sg = [g for _l, g in shape_graphs(maxlen)]
+        sg = [g for _l, g in shape_graphs(maxlen, all_vectors=ctx.thorough)]
         d1 = ctx.domain(
             "named-shapes",
-            bound=f"{len(shapes())} hand-named graph shapes (chain, fan-in, fan-out, triangle, diamond, re-split, combiners on source/intermediate/final nodes, nested workflow) x every split-list length vector in 1..{maxlen}",
+            bound=f"{len(shapes())} hand-named graph shapes (chain, fan-in, fan-out, triangle, diamond, re-split, combiners on source/intermediate/final nodes, nested workflow) x "
+            + (f"every split-list length vector in 1..{maxlen}" if ctx.thorough else "the uniform (1.., 2..) and alternating (1,2,1 / 2,1,2) split-list length vectors"),
             rule="distinct by (graph, input lists); non-trivial = a split upstream node feeds a downstream node",
             exhaustive=True,
         )
-        n1 = _run_domain(ctx, d1, sg, ex, budget, stats)
+        sg.sort(key=lambda g: (-min(len(v) for v in g["inputs"].values()), -sum(len(v) for v in g["inputs"].values())))  # uniform length-2 instances first
+        n1 = _run_domain(ctx, d1, sg, ex, 0.5 * budget, stats)
         if n1 < len(sg):
             d1.exhaustive = False
+        # 2. every graph with <= 2 nodes (grammar of gen_graphs), lists of length 2
+        small = []
+        for k in (1, 2):
+            small += [g for g in gen_graphs(k, {"x": 2, "y": 2, "z": 2}, rich=False, allow_wf=ctx.thorough) if useful(g)]
+        d2 = ctx.domain(
+            "all-graphs-up-to-2-nodes",
+            bound="every graph of <= 2 nodes of the generator grammar (node = P1 | P2"
+            + (" | one nested workflow" if ctx.thorough else "")
+            + "; each input = earlier node output | fresh split list | constant; own splitter single/outer/inner; combiner = none, each single axis, all axes), lists of length 2",
+            rule="distinct by canonical JSON of (nodes, inputs); non-trivial = a split upstream node feeds a downstream node",
+            exhaustive=True,
+        )
+        import time as _t
+
+        cap = (_t.time() - ctx.t0) + 0.35 * max(0.0, budget - (_t.time() - ctx.t0))  # at most 35% of what is left
+        n2 = _run_domain(ctx, d2, small, ex, cap, stats)
+        if n2 < len(small):
+            d2.exhaustive = False
         # 3. seeded random walk over the same grammar, 3..4 (thorough 5) nodes, lengths 1..maxlen
         plan = ctx.pick({3: 150, 4: 250}, {3: 2500, 4: 3500, 5: 1500})
         sampled, seen = [], set()
@@ -757,21 +801,6 @@ def run(ctx):
             exhaustive=False,
         )
         n3 = _run_domain(ctx, d3, sampled, ex, budget, stats)
-        # 2. every graph with <= 2 nodes (grammar of gen_graphs), lists of length 2
-        small = []
-        for k in (1, 2):
-            small += [g for g in gen_graphs(k, {"x": 2, "y": 2, "z": 2}, rich=ctx.thorough, allow_wf=ctx.thorough) if useful(g)]
-        d2 = ctx.domain(
-            "all-graphs-up-to-2-nodes",
-            bound="every graph of <= 2 nodes of the generator grammar (node = P1 | P2"
-            + (" | one nested workflow" if ctx.thorough else "")
-            + "; each input = earlier node output | fresh split list | constant; own splitter single/outer/inner; combiner = none, each single axis, all axes), lists of length 2",
-            rule="distinct by canonical JSON of (nodes, inputs); non-trivial = a split upstream node feeds a downstream node",
-            exhaustive=True,
-        )
-        n2 = _run_domain(ctx, d2, small, ex, budget, stats)
-        if n2 < len(small):
-            d2.exhaustive = False
     ctx.note(f"evaluated: shapes {n1}/{len(sg)}, <=2 nodes {n2}/{len(small)}, sampled {n3}/{len(sampled)}")
     ctx.note(f"verdict counts: { {k: v for k, v in stats.items()} }")
 
@@ -791,5 +820,5 @@ def replay(rec):
 
 
 def _pool_eval_noclass(graph):
-    """development aid: verdict only (no re-run, no classification)"""
+    """development aid (used from .scratch experiments against a patched tree): verdict only"""
     return graph, evaluate(graph)
